@@ -32,11 +32,14 @@ Inductive qcase :=
 | CEvtCirc (len : Z) (isR : bool) (gs : list letter)
     (* the gate list of EigenvalueTransformation.as_circuit(), one letter per phase-shift
        group / block-encoding gate, first applied first *)
-| CGateMx (wires : nat) (md : Z) (u : F.FI) (g : pgate) (cols : list (nat * F.FI)).
+| CGateMx (wires : nat) (md : Z) (u : F.FI) (g : pgate) (cols : list (nat * F.FI))
     (* ONE gate of a phase-shift circuit (as the implementation built it, in the terms of CGates)
        and the matrix the implementation gives a circuit consisting of that gate alone, column
        by column: ties the gate semantics of the model (Rz half angles, control states, X flip,
        global phase, wire embedding) gate by gate, not only through whole-circuit products *)
+| CPmat (n : nat) (u : F.FI) (dg : list F.FI).
+    (* the diagonal of ProjectorControlledPhaseShift.as_matrix() (off-diagonal entries are checked
+       to vanish by the harness), u = exp(i theta) *)
 
 Module QT.
   Import PrimFloat.
@@ -47,7 +50,7 @@ Definition tol := QT.tol.
 Definition the_circuit (sc : cphase_src) (sa : aux_src) (aux : bool) (n : nat) : list pgate :=
   if aux then aux_circuit sa n else cphase_circuit sc n.
 
-Definition check (sc : cphase_src) (sa : aux_src) (se : evt_src) (c : qcase) : bool :=
+Definition check (sc : cphase_src) (sa : aux_src) (se : evt_src) (sp : pmat_src) (c : qcase) : bool :=
   match c with
   | CGates aux n gs => list_eqb pgate_eqb (the_circuit sc sa aux n) gs
   | CMono aux n md u cols =>
@@ -61,10 +64,12 @@ Definition check (sc : cphase_src) (sa : aux_src) (se : evt_src) (c : qcase) : b
       list_eqb (fun m o => Nat.eqb (fst m) (fst o) && F.fi_close tol (snd m) (snd o))
                (map (fun c => (b2n (gate_perm g c), upow_q (K:=F.FI) md u (gate_phq g c))) (all_bits wires))
                cols
+  | CPmat n u dg =>
+      list_eqb (F.fi_close tol) (map (fun c => pmat_mx (K:=F.FI) (upow_q 0 u) sp c c) (all_bits n)) dg
   end.
 
-Definition bad_cases (sc : cphase_src) (sa : aux_src) (se : evt_src) (cs : list (nat * qcase)) : list nat :=
-  map fst (filter (fun c => negb (check sc sa se (snd c))) cs).
+Definition bad_cases (sc : cphase_src) (sa : aux_src) (se : evt_src) (sp : pmat_src) (cs : list (nat * qcase)) : list nat :=
+  map fst (filter (fun c => negb (check sc sa se sp (snd c))) cs).
 
 (** printing words for the harness *)
 Definition letter_code (l : letter) : Z :=
